@@ -160,6 +160,24 @@ def generate(rng, tier):
         sc = rng.choice([1.0, 1e-3, 1e3])
         c = ' '.join(H(rng.uniform(-5, 5) * sc, rng.uniform(-5, 5) * sc) for _ in range(4))
         yield arclen_work(f'cubic.arclen_work {c} {H(sc * 10.0 ** rng.uniform(-12, -3))}', 'arclen-work')
+    # smooth paths through a closed-loop cubic (start point = end point) with G1 neighbours: the optimised fitter's error is not monotone there
+    for _ in range(n):
+        p0 = (rng.uniform(-5, 5), rng.uniform(-5, 5))
+        a = (p0[0] + rng.uniform(-6, 6), p0[1] + rng.uniform(-6, 6))
+        b = (p0[0] + rng.uniform(-6, 6), p0[1] + rng.uniform(-6, 6))
+        t = (p0[0] - b[0], p0[1] - b[1])
+        sc1 = rng.uniform(0.2, 2)
+        c1 = (p0[0] + sc1 * t[0], p0[1] + sc1 * t[1])
+        c2, e = (rng.uniform(-8, 8), rng.uniform(-8, 8)), (rng.uniform(-8, 8), rng.uniform(-8, 8))
+        pre, start = '', p0
+        if rng.random() < 0.5:
+            ta = (a[0] - p0[0], a[1] - p0[1])
+            sc2 = rng.uniform(0.2, 2)
+            start = (rng.uniform(-8, 8), rng.uniform(-8, 8))
+            q1, q2 = (rng.uniform(-8, 8), rng.uniform(-8, 8)), (p0[0] - sc2 * ta[0], p0[1] - sc2 * ta[1])
+            pre = f'C {H(*q1)} {H(*q2)} {H(*p0)} '
+        path = f'M {H(*start)} {pre}C {H(*a)} {H(*b)} {H(*p0)} C {H(*c1)} {H(*c2)} {H(*e)}'
+        yield total(f'path.simplify {H(10.0 ** rng.uniform(-3, 0))} {rng.randint(0, 1)} {path}', 'simplify-smooth-loop')
     # solvers on degenerate coefficient tuples
     for co in itertools.product([0.0, 1.0, -2.0, 1e-6, 1e6], repeat=3):
         yield total(f'solve.quadratic {H(*co)}', 'solvers')
@@ -182,45 +200,3 @@ def generate(rng, tier):
         e = rng.choice(['1e15', '-9.9e14', '1e-320', '123456789012345', '0.000000000000001', '1E+15'])
         yield total(f'svg.parse {hx("M" + e + " 0l" + e + " " + e + "c1 1 2 2 " + e + " 0z")}', 'svg-large-numbers')
 
-
-def _parse_path_line(line):
-    toks = line.split()
-    # find the first 'M'
-    try:
-        k = toks.index('M')
-    except ValueError:
-        return []
-    n = {'M': 2, 'L': 2, 'Q': 4, 'C': 6, 'Z': 0}
-    els = []
-    i = k
-    while i < len(toks) and toks[i] in n:
-        a = toks[i + 1:i + 1 + n[toks[i]]]
-        els.append((toks[i],) + tuple(a))
-        i += 1 + n[toks[i]]
-    return els
-
-
-def fit_opt_closed_loop(case, outs, verdict):
-    """root cause: optimised fitting (fit_to_bezpath_opt, also through simplify with SimplifyOptLevel::Optimize) of a source that contains a
-    curve segment whose end point coincides with its start point (a closed loop): fit_to_cubic finds no candidate for a sub-range with zero chord
-    and the result is unwrapped (fit.rs, `fit_to_cubic(source, t0..t1, accuracy).unwrap()`)"""
-    line = case.lines[0]
-    if not (line.startswith('path.fit') or line.startswith('path.simplify')) or 'unwrap' not in verdict:
-        return False
-    if line.split()[2] != '1':
-        return False
-    els = _parse_path_line(line)
-    last = None
-    for e in els:
-        if e[0] == 'M':
-            last = e[1:3]
-        elif e[0] in 'QC':
-            if tuple(e[-2:]) == tuple(last or ()):
-                return True
-            last = e[-2:]
-        elif e[0] == 'L':
-            last = e[1:3]
-    return False
-
-
-KNOWN_CLASSES = {'fit_opt_closed_loop': fit_opt_closed_loop}
